@@ -183,16 +183,21 @@ def rule_drain_keeps_live(ctx, c, rule):
     res = cf.term(T)["dest"]["l"]
     # assignments to the return place
     ret_false, ret_true = [], []
-    for bi, blk in enumerate(cf.blocks):
-        if blk["cleanup"]:
-            continue
-        for s in blk["stmts"]:
-            if s["k"] == "assign" and s["lhs"]["l"] == 0 and not s["lhs"]["p"] and s["rv"]["k"] == "use" \
-                    and s["rv"]["op"]["k"] == "const":
-                (ret_true if s["rv"]["op"].get("v") == 1 else ret_false).append(bi)
-            elif s["k"] == "assign" and s["lhs"]["l"] == 0:
+
+    def ret_defs(local, depth):
+        # constants reaching the return place, also through a local (`let keep = loop {.. break true ..}; keep`)
+        for (bi, i, st) in cf.defs(local):
+            if cf.blocks[bi]["cleanup"]:
+                continue
+            if i != "term" and st["k"] == "assign" and not st["lhs"]["p"] and st["rv"]["k"] == "use" and st["rv"]["op"]["k"] == "const":
+                (ret_true if st["rv"]["op"].get("v") == 1 else ret_false).append(bi)
+            elif i != "term" and st["k"] == "assign" and not st["lhs"]["p"] and st["rv"]["k"] == "use" and depth > 0 \
+                    and st["rv"]["op"]["k"] in ("copy", "move") and not st["rv"]["op"]["p"]:
+                ret_defs(st["rv"]["op"]["l"], depth - 1)
+            else:
                 ctx.fail(rule, cf.path, cf.loc(bi), "the drain closure returns a constant per arm",
                          "non-constant return value", extra="ret")
+    ret_defs(0, 3)
     err_edges, ok_edges, none_edges, some_edges = set(), set(), set(), set()
     cmd_switch = None
     for sb in result_switches(cf, T, "Result<"):
